@@ -17,7 +17,7 @@ use crate::engine::{explore, guarded, hex, show, validate_traces, Limits, Report
 use crate::refmodel::head;
 use crate::refmodel::reqvalid::{self, ReqFacts};
 
-pub const RULE: &str = "requests: methods {GET,HEAD,POST,PUT,DELETE,OPTIONS} x versions {1.0,1.1} x original header lists of length 0..=1 (thorough 0..=2) x caller-added lists of length 0..=2 over the pool {host, content-length: 3, transfer-encoding: chunked, transfer-encoding: Chunked (mixed case), x-a: 1, x-a: 2 (repeated name), x-bin: <0x80 0xff>, cookie, connection: close} (at most one of Content-Length / Transfer-Encoding) x send-body-despite-method {no,yes}, URIs with and without path/query/port; 12 URI shapes (empty path with query, bare '?', trailing '?', '//', userinfo, upper-case host + default port, fragment, IP literal, percent-encoded delimiters, path parameters) x {GET,POST,OPTIONS} x versions x with/without caller-added Host; long requests with n added (0,1,2,59,60; thorough every n in 0..=60) and m in {0,1,5} original headers; flows at redirect depth 1..3 (states of a redirect-chain graph, with 0/1 added headers); requests the validity model accepts (the rejected ones of the menu are written five times, with headers_map() in between, and must never emit a byte); front ends Flow::<SendRequest>, Call::<WithoutBody>, Call::<WithBody>. Per request the COMPLETE graph of the writer: from every reachable state write(out) for EVERY out in 0..=|head|+1, and again in the completed state; on flows also the accessors method / uri / version / headers_map (which runs the request analysis early) as an action in every state. distinct = distinct (request, front end) graphs";
+pub const RULE: &str = "requests: methods {GET,HEAD,POST,PUT,DELETE,OPTIONS} x versions {1.0,1.1} x original header lists of length 0..=1 (thorough 0..=2) x caller-added lists of length 0..=2 over the pool {host, content-length: 3, transfer-encoding: chunked, transfer-encoding: Chunked (mixed case), x-a: 1, x-a: 2 (repeated name), x-bin: <0x80 0xff>, cookie, connection: close} (at most one of Content-Length / Transfer-Encoding) x send-body-despite-method {no,yes}, URIs with and without path/query/port; 12 URI shapes (empty path with query, bare '?', trailing '?', '//', userinfo, upper-case host + default port, fragment, IP literal, percent-encoded delimiters, path parameters) x {GET,POST,OPTIONS} x versions x with/without caller-added Host; long requests with n added (0,1,2,59,60; thorough every n in 0..=60) and m in {0,1,5} original headers; flows at redirect depth 1..3 (states of a redirect-chain graph, with 0/1 added headers); requests the validity model accepts (the rejected ones of the menu are written five times, with headers_map() in between, and must never emit a byte); front ends Flow::<SendRequest>, Call::<WithoutBody>, Call::<WithBody>. Per request the COMPLETE graph of the writer: from every reachable state write(out) for EVERY out in 0..=|head|+1, and again in the completed state; on flows also the accessors method / uri / version / headers_map (which runs the request analysis early) as an action in every state. plus interleaving: for all 25 ordered pairs of five requests, flow 1 makes one write with every buffer size 0..=|head|, flow 2 writes its whole head, flow 1 finishes - both heads must equal what each flow writes alone. distinct = distinct (request, front end) graphs";
 
 const URI_SHAPES: [&str; 12] = ["http://a.test?x=1", "http://a.test?", "http://a.test/p?", "http://a.test/?", "http://a.test//d", "http://u:pw@a.test/p", "http://A.TEST:80/P", "http://a.test/p#frag", "http://[::1]:8080/p", "http://a.test/%3F?%20&a=b?c", "https://a.test", "http://a.test/p;v=1/q"];
 
@@ -191,6 +191,83 @@ fn refused_emits_nothing(c: &ReqCfg) -> Option<String> {
         Ok(x) => x,
         Err(p) => Some(p),
     }
+}
+
+
+/// Two head writers interleaved on one thread: flow A makes ONE write with a buffer of s bytes (it may
+/// overflow, or emit some lines and stall in front of the next), then flow B writes its whole head,
+/// then A finishes. Both heads must be exactly what each writes alone - for every ordered pair of a
+/// request menu and every s in 0..=|head A|.
+fn interleaved_heads(rep: &mut Report) {
+    let mut menu: Vec<(String, Box<dyn Fn() -> Flow<(), SendRequest> + Send + Sync>)> = Vec::new();
+    let mk = |c: ReqCfg| -> Box<dyn Fn() -> Flow<(), SendRequest> + Send + Sync> { Box::new(move || c.build_prepare().expect("prepare").proceed()) };
+    menu.push(("GET short".into(), mk(ReqCfg::new("GET", "1.1", "http://a.test/"))));
+    menu.push(("POST with added cookie and authorization".into(), mk(ReqCfg::new("POST", "1.1", "http://b.test/upload/some/long/path?with=query").orig("x-orig", "1").added("cookie", "k=B-SECRET").added("authorization", "B-CRED").added("content-length", "3"))));
+    menu.push(("PUT many headers".into(), mk({
+        let mut c = ReqCfg::new("PUT", "1.1", "http://c.test/p");
+        for j in 0..12 {
+            c = c.added(&format!("x-add-{}", j), &format!("value-{}", j));
+        }
+        c
+    })));
+    menu.push(("HEAD HTTP/1.0 with explicit host".into(), mk(ReqCfg::new("HEAD", "1.0", "http://d.test/x").orig("host", "explicit.test").orig("accept", "*/*"))));
+    menu.push(("redirected GET with caller additions".into(), Box::new(|| {
+        use crate::chain::{follow, Followed, Loc};
+        let pf = ReqCfg::new("POST", "1.1", "http://a.test/p").orig("content-length", "3").orig("authorization", "S3CRET").orig("cookie", "k=ORIG").build_prepare().expect("prepare");
+        match follow(&pf, b"abc", 302, &Loc::one("http://e.test/next"), false).expect("follow") {
+            Followed::New(mut f) => {
+                f.header("cookie", "k=NEW").expect("header");
+                f.header("authorization", "E-CRED").expect("header");
+                f.proceed()
+            }
+            _ => panic!("harness: redirect not followed"),
+        }
+    })));
+    let solo: Vec<Vec<u8>> = menu.iter().map(|(_, m)| crate::driver::write_whole_head(&mut m()).expect("solo head")).collect();
+    let mut runs = 0u64;
+    for (x, (lx, mx)) in menu.iter().enumerate() {
+        for (y, (ly, my)) in menu.iter().enumerate() {
+            for s in 0..=solo[x].len() {
+                runs += 1;
+                let r = guarded(|| -> Option<String> {
+                    let mut a = mx();
+                    let mut b = my();
+                    let mut got_a: Vec<u8> = Vec::new();
+                    let mut buf = vec![0u8; s];
+                    if let Ok(n) = a.write(&mut buf) {
+                        got_a.extend_from_slice(&buf[..n]);
+                    }
+                    let got_b = match crate::driver::write_whole_head(&mut b) {
+                        Ok(v) => v,
+                        Err(e) => return Some(format!("the second flow's head could not be written: {}", e)),
+                    };
+                    if got_b != solo[y] {
+                        return Some(format!("the second flow wrote {:?}, alone it writes {:?}", show(&got_b[..got_b.len().min(90)]), show(&solo[y][..solo[y].len().min(90)])));
+                    }
+                    if !a.can_proceed() {
+                        match crate::driver::write_whole_head(&mut a) {
+                            Ok(v) => got_a.extend_from_slice(&v),
+                            Err(e) => return Some(format!("the first flow could not finish its head afterwards: {}", e)),
+                        }
+                    }
+                    if got_a != solo[x] {
+                        return Some(format!("the first flow wrote {:?} in total, alone it writes {:?}", show(&got_a[..got_a.len().min(90)]), show(&solo[x][..solo[x].len().min(90)])));
+                    }
+                    None
+                });
+                let fail = match r {
+                    Ok(x) => x.map(|w| ("C02:interleaved:head-differs".to_string(), w)),
+                    Err(p) => Some((format!("C02:interleaved:panic:{}", crate::engine::panic_site(&p)), p)),
+                };
+                if let Some((key, what)) = fail {
+                    rep.violation(Violation { key, ord: 95_000_000 + (x * 10 + y) as u64 * 1000 + s as u64, what: format!("{} [flow 1 = {}, one write with a {}-byte buffer; then flow 2 = {} writes its head; then flow 1 finishes]", what, lx, s, ly), replay: json!({"kind": "interleaved"}) });
+                }
+            }
+        }
+    }
+    rep.evaluations += runs;
+    rep.transitions += runs * 3;
+    rep.extra("interleaved_head_runs", json!(runs));
 }
 
 /// pseudo buffer size: the accessor calls (method, uri, version, headers_map) instead of a write
@@ -670,6 +747,7 @@ pub fn run(tier: Tier) -> Report {
     for p in parts {
         rep.merge(p);
     }
+    interleaved_heads(&mut rep);
     let rejected: Vec<ReqCfg> = std::mem::take(&mut *REJECTED.lock().unwrap());
     let bad: Vec<(usize, String)> = rejected.par_iter().enumerate().filter_map(|(i, c)| refused_emits_nothing(c).map(|w| (i, w))).collect();
     rep.evaluations += rejected.len() as u64;
@@ -684,6 +762,11 @@ pub fn run(tier: Tier) -> Report {
 }
 
 pub fn replay(v: &Value) -> Result<Option<String>, String> {
+    if v["kind"].as_str() == Some("interleaved") {
+        let mut r = Report::new();
+        interleaved_heads(&mut r);
+        return Ok(r.violations.into_iter().next().map(|(k, (_, v))| format!("[{}] {}", k, v.what)));
+    }
     if v["kind"].as_str() == Some("refused") {
         let c = ReqCfg::from_json(&v["request"])?;
         return Ok(refused_emits_nothing(&c).map(|w| format!("[C02:refused-request-emits] {}", w)));
